@@ -202,6 +202,34 @@ def apply_instance(lead, D, T):
     return Instance('C13', BF + 'apply_beamforming_vector', 'lead%s-D%dT%d' % ('x'.join(map(str, lead)) or '0', D, T), make, call, ensures)
 
 
+def apply_broadcast_instance(wlead, xlead, D, T):
+    """Filter and signal with different leading axes (one filter per bin applied to the images of all sources, or a stack of filters
+    applied to one observation): NumPy broadcasting of the leading axes, w^H x at every broadcast index."""
+    from pb_bss.extraction import beamformer as bf
+    wlead, xlead = tuple(wlead), tuple(xlead)
+    olead = np.broadcast_shapes(wlead, xlead)
+
+    def make(B):
+        return {'w': B.cplx('w', wlead + (D,)), 'x': B.cplx('x', xlead + (D, T))}
+
+    def call(inp):
+        return bf.apply_beamforming_vector(inp['w'], inp['x'])
+
+    def ensures(sp, inp, out):
+        yield 'shape', sp._f(shape_of(out) == olead + (T,))
+        if shape_of(out) != olead + (T,):
+            return
+        g = cells(out)
+        w = np.broadcast_to(cells(inp['w']), olead + (D,))
+        x = np.broadcast_to(cells(inp['x']), olead + (D, T))
+        for li in np.ndindex(*olead):
+            for t in range(T):
+                yield 'w^H x[%s,%d]' % (li, t), sp.eq(g[li + (t,)], sp.sum(sp.conj(w[li + (d,)]) * x[li + (d, t)] for d in range(D)))
+
+    name = 'w%s-x%s-D%dT%d' % ('x'.join(map(str, wlead)) or '0', 'x'.join(map(str, xlead)) or '0', D, T)
+    return Instance('C13', BF + 'apply_beamforming_vector', 'broadcast-' + name, make, call, ensures)
+
+
 def stack_instance(fname, D, F, lead=()):
     """f(stack)[i] == f(stack[i]) for every bin / leading index."""
     from pb_bss.extraction import beamformer as bf, beamformer_wrapper as bw
@@ -498,6 +526,8 @@ def instances(tier):
     out.append(apply_instance((), 2, 2))
     out.append(apply_instance((2,), 2, 2))
     out.append(apply_instance((2, 2), 2, 1))
+    out.append(apply_broadcast_instance((2,), (2, 2), 2, 1))         # filters (F, D) on images (K, F, D, T)
+    out.append(apply_broadcast_instance((2, 2), (2,), 2, 1))         # filters (K, F, D) on one observation (F, D, T)
     for fn in ('mvdr', 'souden', 'wmwf'):      # eigen-solver based functions: per-bin solver calls are C12 obligations
         out.append(stack_instance(fn, 2, 2))
     out.append(stack_instance('mvdr', 2, 2, (2,)))
